@@ -146,6 +146,10 @@ LIST_OPS = [
     ("iadd-generator", "owner.items += (x for x in [a])", lambda c, E: list(c) + [E["a"]], lambda c, E: [E["a"]]),
     ("append-twin", "owner.items.append(n1); owner.items.append(n1_twin)", lambda c, E: list(c) + [E["n1"], E["n1_twin"]], lambda c, E: [E["n1"], E["n1_twin"]]),
     ("setitem-twin", "owner.items.append(n1); owner.items[-1] = n1_twin", lambda c, E: list(c) + [E["n1_twin"]], lambda c, E: [E["n1_twin"]]),
+    ("setitem-slice", "owner.items[0:1] = [a, b]", lambda c, E: [E["a"], E["b"]] + list(c[1:]), lambda c, E: [E["a"], E["b"]]),
+    ("setitem-slice-insert", "owner.items[0:0] = [a]", lambda c, E: [E["a"]] + list(c), lambda c, E: [E["a"]]),
+    ("assign-reversed-self", "owner.items = reversed(owner.items)", lambda c, E: list(reversed(c)), lambda c, E: []),
+    ("assign-generator-over-self", "owner.items = (x for x in owner.items)", lambda c, E: list(c), lambda c, E: []),
     ("insert-twin", "owner.items.append(n1); owner.items.insert(0, n1_twin)", lambda c, E: [E["n1_twin"]] + list(c) + [E["n1"]], lambda c, E: [E["n1_twin"]]),
 ]
 SET_OPS = [
@@ -160,6 +164,7 @@ SET_OPS = [
     ("update", "owner.items.update({a, b})", lambda c, E: list(c) + [E["a"], E["b"]], lambda c, E: [E["a"], E["b"]]),
     ("update-list", "owner.items.update([a, a, e2])", lambda c, E: list(c) + [E["a"], E["e2"]], lambda c, E: [E["a"]]),
     ("update-generator", "owner.items.update(x for x in [a, b])", lambda c, E: list(c) + [E["a"], E["b"]], lambda c, E: [E["a"], E["b"]]),
+    ("assign-generator-over-self", "owner.items = (x for x in owner.items)", lambda c, E: list(c), lambda c, E: []),
     ("ior-iterator-set", "owner.items |= set(iter([a]))", lambda c, E: list(c) + [E["a"]], lambda c, E: [E["a"]]),
 ]
 INITIALS = {"empty": [], "one": ["e1"], "two": ["e1", "e2"]}
@@ -180,7 +185,7 @@ def h_ops(kind, init_name):
     def run(vm):
         ctx = vm.ctx
         for name, stmt, model, added in ops_:
-            if "setitem" in name and not init:
+            if "setitem" in name and "slice-insert" not in name and not init:
                 continue
             owner, E, rel, desc = setup(vm, kind)
             env = dict(E, owner=owner)
